@@ -227,6 +227,45 @@ class Fail(Exception):
         self.detail = detail
 
 
+def match_operands(match_one, pats, idxs, kind, compat=None):
+    """operands in order; when that fails but a permutation of the operands matches (or is the only one whose
+    operator heads are compatible with the graph's operands), the defect is the ORDER"""
+    import itertools
+
+    try:
+        for q, j in zip(pats, idxs):
+            match_one(q, j)
+        return
+    except Fail as first:
+        if first.sig.startswith("tree_iso:operand-order") and getattr(first, "solid", False):
+            raise
+        deeper = None
+        if 2 <= len(pats) <= 3 and len(pats) == len(idxs):
+            for perm in itertools.permutations(range(len(idxs))):
+                if list(perm) == list(range(len(idxs))):
+                    continue
+                try:
+                    for q, t in zip(pats, perm):
+                        match_one(q, idxs[t])
+                except Fail as f:
+                    if f.sig.startswith("tree_iso:operand-order") and getattr(f, "solid", False):
+                        deeper = deeper or f
+                    continue
+                err = Fail(f"tree_iso:operand-order:{kind}", f"operands of {kind} are emitted in the order {list(perm)}")
+                err.solid = True  # a permutation of the operands matches completely
+                raise err
+        if deeper is not None:
+            raise deeper
+        if compat is not None and 2 <= len(pats) <= 3 and len(pats) == len(idxs):
+            ident = tuple(range(len(idxs)))
+            if not all(compat(q, j) for q, j in zip(pats, idxs)):
+                good = [perm for perm in itertools.permutations(ident) if perm != ident and all(compat(q, idxs[t]) for q, t in zip(pats, perm))]
+                if len(good) == 1:
+                    raise Fail(f"tree_iso:operand-order:{kind}", f"operands of {kind} are emitted in the order {list(good[0])} (judged by their operators)")
+        raise first
+
+
+
 def duplicate_refs(nodes):
     """reference names carried by more than one distinct graph node"""
     by = {}
@@ -374,6 +413,27 @@ def _check_stablehlo(text, dump):
         finally:
             active.discard(key)
 
+    known_heads = set(S_OPS.values())
+
+    def compat(p, ix):
+        """False only when the operator of pattern p certainly cannot render graph node ix"""
+        n = nodes[ix]
+        if "ref" in p or p.get("args") is None:
+            return True
+        h = p["head"]
+        if n["kind"] == "symbol":
+            return False
+        if n["kind"] == "constant":
+            return h.startswith("StableHLO_ConstantLike")
+        if h.startswith("StableHLO_ConstantLike"):
+            return False
+        if n["kind"] in S_CMP:
+            return h == "StableHLO_CompareOp" or h not in known_heads
+        if h == "StableHLO_CompareOp":
+            return False
+        want = S_OPS.get(n["kind"])
+        return want is None or h == want or h not in known_heads
+
     def _match(p, ix):
         n = nodes[ix]
         stats["nodes"] += 1
@@ -434,16 +494,14 @@ def _check_stablehlo(text, dump):
                 raise Fail(f"ops_stablehlo:compare-direction:{k}", f"{d['attr']} != {S_CMP[k]}")
             if ty.get("head") != "STABLEHLO_DEFAULT_COMPARISON_TYPE" or ty.get("args") != []:
                 raise Fail("tree_iso:compare-type", str(ty)[:80])
-            for q, j in zip(a[:-2], n["args"]):
-                match(q, j)
+            match_operands(match, a[:-2], n["args"], k, compat)
             return
         want = S_OPS.get(k)
         if want is None or p["head"] != want or p["attr"] is not None:
             raise Fail(f"ops_stablehlo:{k}:{p['head']}", f"kind {k}: emitted operator {p['head']}, specified {want}")
         if len(p["args"]) != len(n["args"]):
             raise Fail("tree_iso:operand-count", f"{k}: {len(p['args'])} != {len(n['args'])}")
-        for q, j in zip(p["args"], n["args"]):
-            match(q, j)
+        match_operands(match, p["args"], n["args"], k, compat)
 
     try:
         match(tree["pattern"], dump["body"])
@@ -916,6 +974,31 @@ def _check_xla(text, dump):
         raise Fail("tree_iso:constant-like-wrong-element-type",
                    f"{what}: ScalarLike({lv[1]}, ..) where {lv[1]} is {describe(got)} but the graph's like is {describe(like_ix)} [{first.detail[:80]}]")
 
+    known_calls = set(X_CALLS.values())
+    known_cpp = set(CPP_CALLS.values())
+
+    def compat_for(alt):
+        def compat(e, ix):
+            """False only when the operator of expression e certainly cannot render graph node ix"""
+            n = nodes[ix]
+            e = _strip(e)
+            if e[0] != "call":
+                return True
+            if n["kind"] == "symbol":
+                return False
+            if not alt:
+                if n["kind"] == "constant":
+                    return e[1] == "ScalarLike"
+                if e[1] == "ScalarLike":
+                    return False
+                want = X_CALLS.get(n["kind"])
+                return want is None or e[1] == want or e[1] not in known_calls
+            if n["kind"] == "constant":
+                return e[1].startswith("std::numeric_limits")
+            want = CPP_CALLS.get(n["kind"])
+            return want is None or e[1] == want or e[1] not in known_cpp
+        return compat
+
     def _match(e, ix, alt, top):
         n = nodes[ix]
         stats["nodes"] += 1
@@ -948,8 +1031,7 @@ def _check_xla(text, dump):
             if k in X_INFIX:
                 if e[0] != "bin" or e[1] != X_INFIX[k]:
                     raise Fail(f"ops_xla_client:{k}", unparse(e)[:60])
-                match(_unparen1(e[2], k), a[0], alt)
-                match(_unparen1(e[3], k), a[1], alt)
+                match_operands(lambda q, j: match(q, j, alt), [_unparen1(e[2], k), _unparen1(e[3], k)], a, k, compat_for(alt))
                 return
             if k in X_PREFIX:
                 if e[0] != "un" or e[1] != X_PREFIX[k]:
@@ -961,8 +1043,7 @@ def _check_xla(text, dump):
                 raise Fail(f"ops_xla_client:{k}:{got}", f"kind {k}: emitted {got}, specified {want}")
             if len(e[2]) != len(a):
                 raise Fail("tree_iso:operand-count", f"{k}: {len(e[2])} != {len(a)}")
-            for q, j in zip(e[2], a):
-                match(q, j, alt)
+            match_operands(lambda q, j: match(q, j, alt), e[2], a, k, compat_for(alt))
             return
         # compile-time (alternative context) expression rendered by the C++ constant printer
         if k == "positive":
@@ -970,8 +1051,7 @@ def _check_xla(text, dump):
         if k in CPP_INFIX:
             if e[0] != "bin" or e[1] != CPP_INFIX[k]:
                 raise Fail(f"ops_cpp:{k}", unparse(e)[:60])
-            match(_unparen1(e[2], k), a[0], alt)
-            match(_unparen1(e[3], k), a[1], alt)
+            match_operands(lambda q, j: match(q, j, alt), [_unparen1(e[2], k), _unparen1(e[3], k)], a, k, compat_for(alt))
             return
         if k in CPP_PREFIX:
             if e[0] != "un" or e[1] != CPP_PREFIX[k]:
@@ -985,8 +1065,7 @@ def _check_xla(text, dump):
             inner = _unparen1(e, k)
             if inner[0] != "tern":
                 raise Fail("ops_cpp:select", unparse(e)[:60])
-            for q, j in zip(inner[1:], a):
-                match(_unparen1(q, k), j, alt)
+            match_operands(lambda q, j: match(q, j, alt), [_unparen1(q, k) for q in inner[1:]], a, k, compat_for(alt))
             return
         if k == "sign":
             # (x == 0 ? x : std::copysign(1, x))
@@ -1010,8 +1089,7 @@ def _check_xla(text, dump):
             raise Fail(f"ops_cpp:{k}:{got}", f"kind {k}: emitted {got}, specified {want}")
         if len(e[2]) != len(a):
             raise Fail("tree_iso:operand-count", f"{k}: {len(e[2])} != {len(a)}")
-        for q, j in zip(e[2], a):
-            match(q, j, alt)
+        match_operands(lambda q, j: match(q, j, alt), e[2], a, k, compat_for(alt))
 
     try:
         match(fn["ret"], dump["body"], False)
